@@ -20,7 +20,7 @@ ASSUMPTIONS = ['mc/spec_table.py is a faithful transcription of AMQP 0-9-1 + '
 
 
 def tasks(tier, seed):
-    return [('index-set',), ('properties',)] + \
+    return [('index-set',), ('properties',), ('applications',)] + \
         [('method', m.name) for m in spec_table.METHODS]
 
 
@@ -206,6 +206,73 @@ def check_index_set(ctx):
          [], stray)
 
 
+def check_after_applications(ctx):
+    """The catalogue is the library's, whatever applications define later:
+    on a freshly imported library, application subclasses of every method
+    class (plain ones, ones whose constructor needs an argument, a vendor
+    method with an index of its own) are defined, frames with unknown
+    class / method ids are decoded (and refused), mapping lookups miss - and
+    then the index mapping must still hold exactly the 64 library classes
+    and every class's own frame must still decode to the library class."""
+    from mc import libstate, refcodec, corpus
+    p = libstate.fresh_import()
+    before = dict(p.commands.INDEX_MAPPING)
+    subs = []
+    for m in spec_table.METHODS:
+        cls = corpus.lib_class_by_name(m)
+        subs.append(type('App' + cls.__name__, (cls,), {}))
+
+        def __init__(self, needed, _c=cls):
+            _c.__init__(self)
+            self.needed = needed
+        subs.append(type('Strict' + cls.__name__, (cls,),
+                         {'__init__': __init__, '__slots__': ['needed']}))
+    try:
+        subs.append(type('Vendor', (p.base.Frame,), {
+            'frame_id': 900, 'index': 0x03840001, 'name': 'Vendor.Method',
+            '__slots__': [], '__annotations__': {}}))
+    except Exception:  # noqa
+        pass
+    import struct
+    for cid, mid in ((10, 99), (99, 10), (60, 41), (900, 1), (0, 0),
+                     (65535, 65535)):
+        payload = struct.pack('>HH', cid, mid) + b'\x00' * 8
+        try:
+            p.frame.unmarshal(b'\x01\x00\x01' + struct.pack(
+                '>I', len(payload)) + payload + b'\xce')
+        except Exception:  # noqa
+            pass
+        for probe in (lambda: p.commands.INDEX_MAPPING[(cid << 16) | mid],
+                      lambda: p.commands.INDEX_MAPPING.get((cid << 16) | mid),
+                      lambda: ((cid << 16) | mid) in p.commands.INDEX_MAPPING):
+            try:
+                probe()
+            except Exception:  # noqa
+                pass
+    fact(ctx, 'INDEX_MAPPING', 'key set after applications defined '
+         'subclasses and unknown methods were looked up',
+         sorted(spec_table.BY_INDEX), sorted(p.commands.INDEX_MAPPING))
+    changed = [hex(k) for k, v in p.commands.INDEX_MAPPING.items()
+               if before.get(k) is not v]
+    fact(ctx, 'INDEX_MAPPING', 'entries replaced after applications defined '
+         'subclasses and unknown methods were looked up', [], changed)
+    wrong = []
+    for m in spec_table.METHODS:
+        data, _f = refcodec.enc_method_frame(
+            m, corpus.nondefault_vector(m), 1)
+        try:
+            obj = p.frame.unmarshal(data)[2]
+            if type(obj) is not before[m.index]:
+                wrong.append('%s -> %s.%s' % (m.name, type(obj).__module__,
+                                              type(obj).__qualname__))
+        except Exception as exc:  # noqa
+            wrong.append('%s -> %r' % (m.name, exc))
+    fact(ctx, 'decoding', 'classes no longer decoded to the library class '
+         'after applications defined subclasses', [], wrong)
+    del subs
+    libstate.fresh_import()
+
+
 def check_properties(ctx):
     p = lib.pamqp()
     cls = p.commands.Basic.Properties
@@ -257,6 +324,8 @@ def run(task, ctx):
         check_index_set(ctx)
     elif task[0] == 'properties':
         check_properties(ctx)
+    elif task[0] == 'applications':
+        check_after_applications(ctx)
     else:
         check_method(ctx, spec_table.BY_NAME[task[1]])
 
@@ -269,5 +338,6 @@ def replay(case, ctx):
         check_properties(ctx)
     else:
         check_index_set(ctx)
+        check_after_applications(ctx)
     ctx.violations = [v for v in ctx.violations
                       if v['case'] == case] or ctx.violations
